@@ -996,7 +996,7 @@ def utc(dt):
             timespan(hours => 3)).utc.hour
         13
     """
-    return dt - dt.utcoffset()
+    return dt.astimezone(UTCTZ)
 
 
 @specs.yaql_property(DATETIME_TYPE)
@@ -1017,7 +1017,7 @@ def offset(dt):
     return dt.utcoffset() or ZERO_TIMESPAN
 
 
-@specs.yaql_property(DATETIME_TYPE)
+@specs.yaql_property(yaqltypes.DateTime())
 def timestamp(dt):
     """:yaql:property timestamp
 
